@@ -40,7 +40,7 @@ Bump(f, k) == [x \in (DOMAIN f) \cup {k} |-> IF x = k THEN (IF k \in DOMAIN f TH
 OK == <<"ok", "">>
 
 MethodOf(e) == CHOOSE m \in Methods : m.cpc = e.cpc /\ m.name = e.method
-Key(v) == [path |-> v.path, cpc |-> v.cpc, method |-> v.method]
+Key(v) == [path |-> v.path, cpc |-> v.cpc, method |-> v.method, pre |-> v.pre]
 
 (***************************************************************************)
 (* D6 (finding): the pinned go-ethereum fork passes readOnly = false from  *)
